@@ -561,12 +561,118 @@ void add_s5(mc::Runner &R, const std::string &name, bool thorough_list, bool qui
   R.add(s);
 }
 
+// ------------------------------------------------------------------ C07 end to end (--x-c07)
+// Per-vertex normals from a direction alphabet on small topologies, all bit widths, sequential / Edgebreaker with
+// difference and geometric-normal prediction.
+const float kDirs[][3] = {{1, 0, 0},          {-1, 0, 0},        {0, 1, 0},           {0, -1, 0},          {0, 0, 1},        {0, 0, -1},
+                          {1, 1, 0},          {-1, 1, 0},        {1, 0, -1},          {0, 1, 1},           {0, -1, 1},       {1, 1, 1},
+                          {-1, -1, -1},       {1, -1, 1},        {0.301131f, 0.953583f, 0}, {-0.301131f, -0.953583f, 0}, {1e-3f, 1, 1e-3f}, {3e30f, -1e30f, 2e30f},
+                          {1e-20f, 2e-20f, -1e-20f}, {0.6f, 0, -0.8f}};
+const int kNumDirs = sizeof(kDirs) / sizeof(kDirs[0]);
+const int kC07Bits[] = {2, 3, 4, 8, 10, 16, 24, 30};
+
+void add_c07_e2e(mc::Runner &R, const std::string &name, int topo_kind, int nverts_varied, bool quick, bool thorough) {
+  // topologies: 0 zig-zag wall (faces parallel to the z axis), 1 strip2, 2 bowtie over ids {0,1,2},{0,3,4}, 3 tetrahedron
+  uint64_t nasg = 1;
+  for (int i = 0; i < nverts_varied; ++i) nasg *= kNumDirs;
+  // cfg: method {seq s5, eb std s0, eb valence s3, eb std s5} x bits(8) x position kind {q11, i32}
+  mc::Radix rx{4, 8, 2, nasg};
+  auto make = [=](uint64_t idx, GeomDef *g, EncCfg *c, int *q) {
+    auto d = rx.decode(idx);
+    Topo t;
+    std::vector<std::array<float, 3>> P;
+    if (topo_kind == 0) {
+      t = {{0, 1, 2}, {2, 1, 3}, {2, 3, 4}, {4, 3, 5}};
+      P = {{0, 0, 0}, {0, 0, 1}, {1, 2, 0}, {1, 2, 1}, {3, 3, 0}, {3, 3, 1}};
+    } else if (topo_kind == 1) {
+      t = {{0, 1, 2}, {2, 1, 3}};
+      P = {{0, 0, 0}, {1, 0, 0}, {0, 1, 0}, {1, 1, 1}};
+    } else if (topo_kind == 2) {
+      t = {{0, 1, 2}, {0, 3, 4}};
+      P = {{0, 0, 0}, {1, 0, 0}, {0, 1, 0}, {0, 0, 1}, {1, 1, 1}};
+    } else {
+      t = {{0, 1, 2}, {0, 3, 1}, {1, 3, 2}, {2, 3, 0}};
+      P = {{0, 0, 0}, {1, 0, 0}, {0, 1, 0}, {0, 0, 1}};
+    }
+    const bool ipos = d[2] == 1;
+    g->is_mesh = true;
+    g->num_points = (int)P.size();
+    g->faces = t;
+    AttDef pos, nrm;
+    pos.type = GeometryAttribute::POSITION; pos.nc = 3; pos.uid = 0; pos.dt = ipos ? DT_INT32 : DT_FLOAT32;
+    nrm.type = GeometryAttribute::NORMAL; nrm.nc = 3; nrm.uid = 4; nrm.dt = DT_FLOAT32;
+    uint64_t a = d[3];
+    for (size_t v = 0; v < P.size(); ++v) {
+      if (ipos) pos.entries.push_back(bytes_of(std::vector<int32_t>{(int32_t)P[v][0], (int32_t)P[v][1], (int32_t)P[v][2]}));
+      else pos.entries.push_back(bytes_of(std::vector<float>{P[v][0], P[v][1], P[v][2]}));
+      int di;
+      if ((int)v < nverts_varied) {
+        di = a % kNumDirs;
+        a /= kNumDirs;
+      } else {
+        di = (int)((v * 7 + d[3]) % kNumDirs);
+      }
+      nrm.entries.push_back(bytes_of(std::vector<float>{kDirs[di][0], kDirs[di][1], kDirs[di][2]}));
+    }
+    g->atts = {pos, nrm};
+    *q = kC07Bits[d[1]];
+    static const int mk[4] = {0, 2, 3, 2}, sp[4] = {5, 0, 3, 5};
+    *c = gs::mesh_cfg(mk[d[0]], sp[d[0]]);
+    c->qbits = {ipos ? 0 : 11, *q};
+  };
+  mc::Space s;
+  s.name = name;
+  s.size = rx.size();
+  s.quick = quick;
+  s.thorough = thorough;
+  s.run = [=](uint64_t idx, mc::Ctx &ctx) {
+    GeomDef g;
+    EncCfg c;
+    int q;
+    make(idx, &g, &c, &q);
+    rt::check_normals_end_to_end(g, c, 1, q, ctx);
+    ctx.nontrivial_unique();
+  };
+  s.describe = [=](uint64_t idx) {
+    GeomDef g;
+    EncCfg c;
+    int q;
+    make(idx, &g, &c, &q);
+    return text(g) + " " + text(c);
+  };
+  R.add(s);
+}
+
 }  // namespace
 
 int main(int argc, char **argv) {
-  bool c09 = false;
-  for (int i = 1; i < argc; ++i) c09 = c09 || std::string(argv[i]) == "--x-c09";
+  bool c09 = false, c07 = false;
+  for (int i = 1; i < argc; ++i) {
+    c09 = c09 || std::string(argv[i]) == "--x-c09";
+    c07 = c07 || std::string(argv[i]) == "--x-c07";
+  }
   g_c09 = c09;
+  if (c07) {
+    mc::Runner R(argc, argv, "C07");
+    R.level = "model_checking";
+    R.rule =
+        "end to end: meshes (zig-zag wall parallel to the z axis, two-triangle strip, bow-tie, tetrahedron) whose per-vertex normals take "
+        "EVERY assignment from a 20-direction alphabet (axes, edges, corners, near-axis, huge and tiny lengths) on the varied vertices x q in "
+        "{2,3,4,8,10,16,24,30} x {sequential, Edgebreaker standard speed 0 (geometric-normal prediction), valence speed 3, standard speed 5 "
+        "(difference prediction)} x {quantized float, integer} positions; non-trivial = every executed case";
+    R.explanation =
+        "oracle = the property's statement on the decoded geometry: every decoded normal finite, unit length within 1e-6 and within "
+        "3*(2/(2^q-2))+2e-6 rad of a source normal of the same vertex (matched through the position)";
+    R.assumptions = {"decoded points are matched to source vertices through their position value"};
+    R.transition_counters = {"encode_calls", "e2e_normals_compared"};
+    add_c07_e2e(R, "e2e_wall_2_vertices", 0, 2, true, true);
+    add_c07_e2e(R, "e2e_strip2_2_vertices", 1, 2, true, true);
+    add_c07_e2e(R, "e2e_bowtie_2_vertices", 2, 2, true, true);
+    add_c07_e2e(R, "e2e_wall_3_vertices", 0, 3, false, true);
+    add_c07_e2e(R, "e2e_tetrahedron_3_vertices", 3, 3, false, true);
+    R.require("e2e_normals_compared", 1000);
+    return R.main();
+  }
   mc::Runner R(argc, argv, c09 ? "C09" : "C01");
   R.level = "model_checking";
   const bool asan = R.flag("asan");
